@@ -151,6 +151,47 @@ func verifControlIdxGood(m modeling.Mesh) modeling.Mesh {
 	}
 	return m.SetIndices(out)
 }
+
+// must fire GRP-1: indices kept one at a time, topology inherited, no topology requirement
+func verifControlGrpBad(m modeling.Mesh) modeling.Mesh {
+	indices := m.Indices()
+	out := make([]int, 0)
+	for i := 0; i < indices.Len(); i++ {
+		if indices.At(i)%2 == 0 {
+			out = append(out, indices.At(i))
+		}
+	}
+	return m.SetIndices(out)
+}
+
+// must stay silent for GRP-1: whole groups of the mesh's own topology
+func verifControlGrpGood(m modeling.Mesh) modeling.Mesh {
+	indices := m.Indices()
+	size := m.Topology().IndexSize()
+	out := make([]int, 0)
+	for i := 0; i+size <= indices.Len(); i += size {
+		if indices.At(i)%2 != 0 {
+			continue
+		}
+		for c := 0; c < size; c++ {
+			out = append(out, indices.At(i+c))
+		}
+	}
+	return m.SetIndices(out)
+}
+
+// must stay silent for GRP-1: three at a time on a mesh required to be a triangle mesh
+func verifControlGrpTriGood(m modeling.Mesh) modeling.Mesh {
+	check(RequireTopology(m, modeling.TriangleTopology))
+	indices := m.Indices()
+	out := make([]int, 0)
+	for i := 0; i+2 < indices.Len(); i += 3 {
+		if indices.At(i) != indices.At(i+1) {
+			out = append(out, indices.At(i), indices.At(i+1), indices.At(i+2))
+		}
+	}
+	return m.SetIndices(out)
+}
 `,
 	}
 }
@@ -172,6 +213,7 @@ func run(c *props.Ctx) {
 	c.R.Floor("IDX-2", 6)
 	c.R.Floor("IDX-3", 20)
 	remapAndFill(c, fns)
+	groupKeeps(c, fns)
 	loopVars(c, fns)
 	iterDrains(c, fns)
 	generators(c)
@@ -210,6 +252,51 @@ func run(c *props.Ctx) {
 			got = ob.Violation
 		}
 		c.R.Control("IDX", "control:verifControlIdxGood", "modeling/meshops/zz_verif_control_c02.go", got, ob.Holds, "")
+	}
+}
+
+// groupKeeps: GRP-1 — an operation that keeps its input's topology keeps or drops whole primitives.
+func groupKeeps(c *props.Ctx, fns []*ssa.Function) {
+	p := c.P
+	finds, notes := eng.GroupKeeps(fns, mc.ModelingPath, mc.ModelingPath+"/meshops", p.SSA)
+	for _, n := range notes {
+		c.R.Failf("%s", n)
+	}
+	per := map[string]int{}
+	ctl := map[string]bool{}
+	ctlSeen := map[string]bool{}
+	for _, f := range finds {
+		if p.IsControl(f.Fn.Pos()) {
+			ctlSeen[f.Fn.Name()] = true
+			if !f.OK {
+				ctl[f.Fn.Name()] = true
+			}
+			continue
+		}
+		k := p.FuncName(f.Fn) + "→SetIndices:keep"
+		per[k]++
+		construct := fmt.Sprintf("%s#%d", k, per[k])
+		if f.OK {
+			c.R.Hold("GRP-1", construct, p.Pos(ssau.PosOf(f.At)), f.Detail)
+		} else {
+			c.R.Violate("GRP-1", construct, p.Pos(ssau.PosOf(f.At)), f.Detail)
+		}
+	}
+	c.R.Floor("GRP-1", 3)
+	if len(c.P.Controls) > 0 {
+		file := "modeling/meshops/zz_verif_control_c02.go"
+		got := ob.Holds
+		if ctl["verifControlGrpBad"] {
+			got = ob.Violation
+		}
+		c.R.Control("GRP-1", "control:verifControlGrpBad", file, got, ob.Violation, "")
+		for _, n := range []string{"verifControlGrpGood", "verifControlGrpTriGood"} {
+			got := ob.Holds
+			if ctl[n] || !ctlSeen[n] {
+				got = ob.Violation
+			}
+			c.R.Control("GRP-1", "control:"+n, file, got, ob.Holds, "")
+		}
 	}
 }
 
